@@ -351,7 +351,7 @@ def check_pipeline(case, v):
         if g["kind"] == "stopping":
             f = GameFacts(g["game"])
             try:
-                if f.too_slow:
+                if f.slow:
                     v.inconclusive = "T>300"
                     return
             except OracleError as e:
